@@ -15,7 +15,10 @@ import vlib
 
 LEVEL = "model_checking"
 
-BASE = "a = 1\nb = a + 1\nc = b + 1\nprint! c\n"
+# the document imports a sibling module, so that it is part of the server's module graph: only then does
+# didSave go through `change_kind` (a document without dependencies is always re-checked from scratch)
+SIBLINGS = {"dep.er": ".k = 1\n"}
+BASE = 'dep = import "dep"\na = dep.k\nb = a + 1\nc = b + 1\nprint! c\n'
 
 
 def lines_of(text):
@@ -26,17 +29,20 @@ def lines_of(text):
 def ins_line(k, line):
     def f(text):
         n = len(lines_of(text))
-        if k > n:
+        kk = n if k == "end" else k
+        if kk > n:
             return None
-        return [[[k, 0], [k, 0], line + "\n"]]
+        return [[[kk, 0], [kk, 0], line + "\n"]]
     return f
 
 
 def del_line(k):
     def f(text):
-        if k >= len(lines_of(text)):
+        n = len(lines_of(text))
+        kk = n - 1 if k == "last" else k
+        if kk >= n or kk < 1:   # the import line stays
             return None
-        return [[[k, 0], [k + 1, 0], ""]]
+        return [[[kk, 0], [kk + 1, 0], ""]]
     return f
 
 
@@ -51,21 +57,25 @@ def replace_in_line(k, old, new):
 
 
 EDITS = {
-    "ins-str-def@0": ins_line(0, 'd = "s"'),
-    "ins-def@2": ins_line(2, "e = b + 2"),
-    "ins-bad-def@1": ins_line(1, 'g = a + "x"'),
-    "ins-syntax-error@1": ins_line(1, "h = ("),
-    "del@0": del_line(0),
+    "ins-str-def@1": ins_line(1, 'd = "s"'),
+    "ins-def@3": ins_line(3, "e = b + 2"),
+    "ins-bad-def@2": ins_line(2, 'g = a + "x"'),
+    "ins-syntax-error@2": ins_line(2, "h = ("),
+    "append-def": ins_line("end", "y = 7"),
+    "append-bad-def": ins_line("end", 'z = 1 + "x"'),
     "del@1": del_line(1),
     "del@2": del_line(2),
-    "lit-int-to-str@0": replace_in_line(0, "1", '"x"'),
-    "lit-str-to-int@0": replace_in_line(0, '"x"', "1"),
-    "rename-use@1": replace_in_line(1, "a", "zz"),
-    "unrename-use@1": replace_in_line(1, "zz", "a"),
+    "del@3": del_line(3),
+    "del-last": del_line("last"),
+    "lit-int-to-str@1": replace_in_line(1, "dep.k", '"x"'),
+    "lit-str-to-int@1": replace_in_line(1, '"x"', "dep.k"),
+    "rename-use@2": replace_in_line(2, "a", "zz"),
+    "unrename-use@2": replace_in_line(2, "zz", "a"),
 }
 # two-change notifications (applied in order, the second positioned in the text left by the first)
-PAIRS = [("ins-def@2", "del@0"), ("del@1", "ins-str-def@0"), ("ins-bad-def@1", "ins-def@2"), ("lit-int-to-str@0", "ins-def@2"),
-         ("ins-syntax-error@1", "del@1"), ("del@0", "del@0"), ("rename-use@1", "ins-str-def@0"), ("ins-str-def@0", "ins-bad-def@1")]
+PAIRS = [("ins-def@3", "del@1"), ("del@2", "ins-str-def@1"), ("ins-bad-def@2", "ins-def@3"), ("lit-int-to-str@1", "ins-def@3"),
+         ("ins-syntax-error@2", "del@2"), ("del@1", "del@1"), ("rename-use@2", "ins-str-def@1"), ("ins-str-def@1", "ins-bad-def@2"),
+         ("append-def", "append-bad-def"), ("del-last", "append-bad-def")]
 
 
 def ref_offset(text, l, c):
@@ -154,13 +164,13 @@ def run(chk):
 
     def fresh_job(arg):
         i, text = arg
-        return text, engine(exe, "fresh-diags", {"final": text}, f"f{i}")
+        return text, engine(exe, "fresh-diags", {"final": text, "siblings": SIBLINGS}, f"f{i}")
 
     fresh = dict(vlib._pool(vlib.NCPU, list(enumerate(finals)), fresh_job))
 
     def hist_job(arg):
         i, (names, steps, final) = arg
-        return names, steps, final, engine(exe, "converge", {"base": BASE, "steps": steps, "final": final, "no_fresh": True}, f"h{i}")
+        return names, steps, final, engine(exe, "converge", {"base": BASE, "steps": steps, "final": final, "no_fresh": True, "siblings": SIBLINGS}, f"h{i}")
 
     states = set()
     transitions = 0
@@ -207,6 +217,6 @@ def replay(path):
     w = json.load(open(path))["witness"]
     exe, _ = vlib.build("mc_els")
     vlib.stage_erg_path()
-    r = engine(exe, "converge", {"base": w.get("base", BASE), "steps": w["steps"], "final": w["final"]}, "replay")
+    r = engine(exe, "converge", {"base": w.get("base", BASE), "steps": w["steps"], "final": w["final"], "siblings": SIBLINGS}, "replay")
     print(json.dumps(r, indent=1)[:3000])
     return 1 if r.get("incremental") != r.get("fresh") else 0
